@@ -143,6 +143,9 @@ func (j recordJSON) ToNode() (ast.Node, error) {
 	// key order, not map order: the decoded AST (and its text rendering) must not change from run to run
 	for _, k := range slices.Sorted(maps.Keys(j)) {
 		v := j[k]
+		if v == nil {
+			return ast.Node{}, fmt.Errorf("error in record: entry %q is null", k)
+		}
 		n, err := v.ToNode()
 		if err != nil {
 			return ast.Node{}, fmt.Errorf("error in record: %w", err)
